@@ -722,13 +722,13 @@ func (e *Eng) applyContract(con *Contract, fi *FuncInfo, name string, recv *Val,
 	}
 	env, resNames := e.contractEnv(con, fi, recv, args)
 	cc := e.calleePkgCtx(con, fi, c, env, nil)
-	ord := e.callOrd[x]
+	_ = e.callOrd[x]
 	if !c.spec {
 		for k, r := range con.Requires {
 			g := e.specBool(r.Expr, cc)
-			lbl := fmt.Sprintf("call#%d:%s/requires#%d", ord, shortName(name), k)
+			lbl := fmt.Sprintf("call:%s/requires#%d", shortName(name), k)
 			if r.Label != "" {
-				lbl = fmt.Sprintf("call#%d:%s/requires:%s", ord, shortName(name), r.Label)
+				lbl = fmt.Sprintf("call:%s/requires:%s", shortName(name), r.Label)
 			}
 			e.oblig("call-requires", lbl, c.st, g, x.Pos())
 			c.st.assume(g)
